@@ -32,11 +32,14 @@ def conserving(kind: str) -> bool:
 
 
 class Oracle:
+    PROBE_STATES = 2
+
     def __init__(self, part, world):
         self.part = part
         self.world = world
         self.causes = set()
         self.nv_cache = {}
+        self.probe_states = {}
 
     def reported(self, ctx):
         """(account net value as the broker reports it, slack for the implementation's own rounding) or (None, 0) if it cannot be evaluated"""
@@ -66,20 +69,54 @@ class Oracle:
                                 {"negatives": neg})
 
     def on_transition(self, ctx, hist, op, pre_raw, snap, out):
+        self.judge(ctx, hist, op, pre_raw, snap, out)
+        if out.ok:
+            return
+        # a rejected call must not disarm what protects the NEXT call: every boundary / to-be-rejected operation of the same market is tried right after
+        # the rejection (once per state, operation and cause; these probes do not use up the explorer's deviation budget)
+        cause = (out.error[0], out.error[1][:24])
+        seen = snap.setdefault("_c03_seen", set())
+        if (op.kind, cause) in seen:
+            return
+        seen.add((op.kind, cause))
+        # ... and from at most PROBE_STATES different states per (operation, cause) and partition: what a rejection leaves behind depends on the
+        # cause, the follow-ups need a state in which they bite (the seeded portfolios and their first successors provide it)
+        n = self.probe_states.get((op.kind, cause), 0)
+        if n >= self.PROBE_STATES:
+            return
+        self.probe_states[(op.kind, cause)] = n + 1
+        own = op.kind.split(".")[0]
+        post_snap = ctx.snapshot()
+        post_raw = ctx.raw()
+        for nxt in self.world.alphabet(ctx):
+            if not nxt.deviation or nxt.kind.split(".")[0] != own:
+                continue
+            out2 = kit.apply(ctx, nxt)
+            self.part.count("probes_after_rejection")
+            self.judge(ctx, list(hist) + [nxt.label], nxt, post_raw, post_snap, out2)
+            ctx.restore(post_snap)
+
+    def judge(self, ctx, hist, op, pre_raw, snap, out):
         part = self.part
         part.count("transitions")
         part.count("accepted" if out.ok else "rejected")
         row = ctx.price_row()
         post_nv = ctx.ref_net_value()
         post_reported, post_slack = self.reported(ctx)
-        # pre-state net value: recompute from the snapshot (restore, value, come back)
-        post_snap = ctx.snapshot()
-        ctx.restore(snap)
-        pre_nv = ctx.ref_net_value()
-        pre_reported, pre_slack = self.reported(ctx)
-        pre_wallet = ctx.wallet()
-        slack_extra = self.world.allowed_gain(ctx, op) if hasattr(self.world, "allowed_gain") else Fraction(0)
-        ctx.restore(post_snap)
+        # pre-state net value: recomputed from the snapshot (restore, value, come back), once per state (the snapshot dict is the same object for
+        # every call made from one state); the gain a world allows for an operation is evaluated in the pre-state for every call
+        pre = snap.get("_c03_pre")
+        has_gain = hasattr(self.world, "allowed_gain")
+        slack_extra = Fraction(0)
+        if pre is None or has_gain:
+            post_snap = ctx.snapshot()
+            ctx.restore(snap)
+            if pre is None:
+                pre = snap["_c03_pre"] = (ctx.ref_net_value(),) + self.reported(ctx) + (ctx.wallet(),)
+            if has_gain:
+                slack_extra = self.world.allowed_gain(ctx, op)
+            ctx.restore(post_snap)
+        pre_nv, pre_reported, pre_slack, pre_wallet = pre
         post_wallet = ctx.wallet()
         dust = Fraction(0)
         for k, before in pre_wallet.items():
